@@ -45,6 +45,8 @@ type Run struct {
 	gorPanic  any
 	gwritten  map[*ssa.Global]bool
 	cancelCtx *ctxObj
+	schedSeeded bool
+	schedState  uint64
 	cancelAt  int
 	cliVals   map[string]Value
 	cliCalls  StrV
